@@ -117,8 +117,8 @@ EXHAUSTIVE = [
     ('cell_split', ' 01a(', 5, 7, [('', ''), ('1 0 ', ''), ('1 1 ', ''), ('7 like 1 but', '')]),
     ('cell_split', ' 0)*:i-', 3, 5, [('3 0 -1', ''), ('3 2 -1.0 (1', ''), ('3 00 ', ' imp:n=1')]),
     ('opt_tokens', ' :=(Aa)', 4, 6, [('', ''), ('imp', '1')]),
-    ('to_float', '1.+-eEdD', 4, 7, [('', ''), ('1.5', ''), ('-.', '0')]),
-    ('to_float', '10.+-d', 5, 8, [('', '')]),
+    ('to_float', '1.+-eEdD', 4, 6, [('', ''), ('1.5', ''), ('-.', '0')]),
+    ('to_float', '10.+-d', 5, 7, [('', '')]),
     ('front', 'a \nc', 5, 7, [('t\n', ''), ('t\n1 0 1\n\n', ''), ('message:\n\nt\n', '\n\na')]),
 ]
 
